@@ -243,6 +243,13 @@ func genDec(g *genCtx, only map[string]bool) {
 						emit('M', true, pool[g.rng.Intn(len(pool))], v[:l], nil)
 					}
 				}
+				// every truncation again, this time with the REMOVED bytes lying right behind the slice (what a reused
+				// receive buffer holds after a longer earlier copy of the same packet): a decoder that reads beyond
+				// len reconstructs the full value here, and only here
+				for k := 1; k <= len(v) && k <= 40; k++ {
+					cut := len(v) - k
+					emit('P', cut >= spec.min, nil, v[:cut], append(append([]byte(nil), v[cut:]...), poison[1][:8]...))
+				}
 				// extension by 1…3 bytes
 				ext := append(append([]byte(nil), v...), byte(g.rng.Intn(256)), byte(g.rng.Intn(256)), byte(g.rng.Intn(256)))
 				for k := 1; k <= 3; k++ {
